@@ -555,3 +555,15 @@ pub fn fnv(h: u64, bytes: &[u8]) -> u64 {
     }
     h
 }
+
+/// Truncate a message for display, on a character boundary.
+pub fn trunc(s: &str, n: usize) -> &str {
+    if s.len() <= n {
+        return s;
+    }
+    let mut e = n;
+    while !s.is_char_boundary(e) {
+        e -= 1;
+    }
+    &s[..e]
+}
